@@ -914,6 +914,16 @@ class TaskGroup(abc.TaskGroup):
             asyncio.future_add_to_awaited_by(task, self.cancel_scope._host_task)
 
         task.add_done_callback(task_done)
+
+        # If the task was started in a scope that has already been cancelled, make sure
+        # that the cancellation gets delivered to it too, even if the delivery had already
+        # stopped for lack of eligible tasks (e.g. the host being in a shielded scope)
+        if self.cancel_scope._cancel_called:
+            if self.cancel_scope._cancel_handle is None:
+                self.cancel_scope._deliver_cancellation(self.cancel_scope)
+        else:
+            self.cancel_scope._restart_cancellation_in_parent()
+
         return handle
 
     def create_task(
